@@ -113,6 +113,8 @@ theorem C19_rerun_all (n : Nat) (st : State) :
     runConstraintsF ord (n + 1) st = runSnapshot (runConstraintsF ord n) ord st (ord.cs st.store) := rfl
 
 /-! ### chains of several constraints, in arbitrary interleavings -/
+section Chains
+variable [Mode]
 
 /-- CHAINS: any list of `plusz` / `timesz` atoms and equalities (and any FD atoms), in ANY posting order,
     under any hash-iteration order: the state reached describes exactly the integer solutions of the
@@ -131,8 +133,11 @@ theorem C19_order_free {ord ord' : Order} (ho : OrderOK ord) (ho' : OrderOK ord'
     (h1 : postAllF ord (State.empty n) as = .ok st1) (h2 : postAllF ord' (State.empty n) as' = .ok st2) (γ : Subst) :
     Sem NoI γ st1 ↔ Sem NoI γ st2 := (fd_order_free ho ho' n as as' hp hok).1 st1 st2 h1 h2 γ
 
+end Chains
+
 
 section Examples
+attribute [local instance] Mode.strict
 private def x : Term := .var 0
 private def y : Term := .var 1
 private def z : Term := .var 2
@@ -162,7 +167,7 @@ private def prog19 : List FAtom :=
 example : ∀ a ∈ prog19, a.OK := by
   intro a ha
   simp only [prog19, List.mem_cons, List.not_mem_nil, or_false] at ha
-  rcases ha with rfl | rfl | rfl | rfl <;> simp [FAtom.OK, Cst.isDistinct]
+  rcases ha with rfl | rfl | rfl | rfl <;> simp [FAtom.OK, CstOK]
 example : (match postAllF Order.default (State.empty 4) prog19 with
     | .ok st => st.store.isEmpty && (st.σ 1 == num 4) && (st.σ 2 == num 5) | _ => false) = true := by decide
 end Examples
